@@ -195,6 +195,87 @@ example : IsRot3 (curvedRot (⟨2 / 7, 3 / 7, 6 / 7⟩ : V3 ℚ) ⟨3 / 7, -6 / 
   (C19.curved_rot_aligned _ _ 1 (by norm_num [V3.normSq, V3.dot]) (by norm_num [V3.normSq, V3.dot])
     (by norm_num [V3.dot])).1
 
+/-- `CylindricalDetector` / `SphericalDetector` for ALL detector parameters (any
+`(c0, s0) = (cos, sin)` of the angular parameter, any `(c1, s1)` of the polar one, any height
+`v`, any radius and orthonormal axes), with `ctr = detector.translation` the centre:
+sphere — every surface point has distance `radius` from the centre, both rows of
+`surface_deriv` are tangent (orthogonal to the radius vector) and orthogonal to each other,
+of lengths `radius·|cos θ|` and `radius`;
+cylinder — every surface point has distance `radius` from the cylinder axis (the line through
+the centre along `axes[1]`) and height `v` along it, `surface_deriv = (tangent of length
+radius orthogonal to the axis, axes[1])`, and the un-normalised `surface_normal`
+(`deriv₀ × deriv₁`) has length `radius` (`surface_measure`). -/
+theorem C19.curved_detector_all_params {K : Type} [CommRing K] (a0 a1 : V3 K) (r : K) (p : P2 K)
+    (h0 : a0.normSq = 1) (h1 : a1.normSq = 1) (h01 : V3.dot a0 a1 = 0)
+    (hc0 : p.c0 * p.c0 + p.s0 * p.s0 = 1) (hc1 : p.c1 * p.c1 + p.s1 * p.s1 = 1) :
+    let ctr := V3.smul (-r) ((curvedRot a0 a1).mulVec ⟨1, 0, 0⟩)
+    -- sphere
+    (V3.sub ((Det3.sph a0 a1 r).surface p) ctr).normSq = r * r ∧
+    V3.dot ((Det3.sph a0 a1 r).deriv0 p) (V3.sub ((Det3.sph a0 a1 r).surface p) ctr) = 0 ∧
+    V3.dot ((Det3.sph a0 a1 r).deriv1 p) (V3.sub ((Det3.sph a0 a1 r).surface p) ctr) = 0 ∧
+    V3.dot ((Det3.sph a0 a1 r).deriv0 p) ((Det3.sph a0 a1 r).deriv1 p) = 0 ∧
+    ((Det3.sph a0 a1 r).deriv1 p).normSq = r * r ∧
+    ((Det3.sph a0 a1 r).deriv0 p).normSq = r * r * (p.c1 * p.c1) ∧
+    -- cylinder
+    (let w := V3.sub ((Det3.cyl a0 a1 r).surface p) ctr
+     w.normSq - (V3.dot w a1) * (V3.dot w a1) = r * r ∧ V3.dot w a1 = p.v) ∧
+    (Det3.cyl a0 a1 r).deriv1 p = a1 ∧
+    V3.dot ((Det3.cyl a0 a1 r).deriv0 p) a1 = 0 ∧
+    ((Det3.cyl a0 a1 r).deriv0 p).normSq = r * r ∧
+    ((Det3.cyl a0 a1 r).normalRaw p).normSq = r * r := by
+  intro ctr
+  have hR := (show (curvedRot a0 a1).transpose.mul (curvedRot a0 a1) = M3.one from by
+    obtain ⟨x, y, z⟩ := a0
+    obtain ⟨u, v, w⟩ := a1
+    simp only [V3.normSq, V3.dot] at h0 h1 h01
+    ext <;> simp only [curvedRot, M3.ofCols, V3.cross, V3.neg, M3.transpose, M3.mul, M3.one] <;> grind)
+  -- everything is R applied to an intrinsic vector
+  have es : V3.sub ((Det3.sph a0 a1 r).surface p) ctr
+      = (curvedRot a0 a1).mulVec ⟨r * (p.c0 * p.c1), r * (-p.s0 * p.c1), r * p.s1⟩ := by
+    ext <;> simp only [ctr, Det3.surface, V3.add, V3.sub, V3.smul, M3.mulVec] <;> ring
+  have ec : V3.sub ((Det3.cyl a0 a1 r).surface p) ctr
+      = (curvedRot a0 a1).mulVec ⟨r * p.c0, r * (-p.s0), p.v⟩ := by
+    ext <;> simp only [ctr, Det3.surface, V3.add, V3.sub, V3.smul, M3.mulVec] <;> ring
+  have ea1 : a1 = (curvedRot a0 a1).mulVec ⟨0, 0, 1⟩ := by
+    ext <;> simp only [curvedRot, M3.ofCols, M3.mulVec] <;> ring
+  have hdet : (curvedRot a0 a1).det = 1 := by
+    obtain ⟨x, y, z⟩ := a0
+    obtain ⟨u, v, w⟩ := a1
+    simp only [V3.normSq, V3.dot] at h0 h1 h01
+    simp only [curvedRot, M3.ofCols, V3.cross, V3.neg, M3.det]; grind
+  have hd : ∀ w : V3 K, V3.dot ((curvedRot a0 a1).mulVec w) a1 = w.z := by
+    intro w
+    have : V3.dot ((curvedRot a0 a1).mulVec w) ((curvedRot a0 a1).mulVec ⟨0, 0, 1⟩) = w.z := by
+      rw [M3.dot_mulVec _ hR]; simp only [V3.dot]; ring
+    rw [← ea1] at this; exact this
+  refine ⟨?_, ?_, ?_, ?_, ?_, ?_, ⟨?_, ?_⟩, ?_, ?_, ?_, ?_⟩
+  · rw [es, M3.normSq_mulVec _ hR]; simp only [V3.normSq, V3.dot]
+    linear_combination (r * r * p.c1 * p.c1) * hc0 + (r * r) * hc1
+  · rw [es]; simp only [Det3.deriv0]; rw [M3.dot_mulVec _ hR]; simp only [V3.dot]; ring
+  · rw [es]; simp only [Det3.deriv1]; rw [M3.dot_mulVec _ hR]; simp only [V3.dot]
+    linear_combination (-(r * r * p.c1 * p.s1)) * hc0
+  · simp only [Det3.deriv0, Det3.deriv1]; rw [M3.dot_mulVec _ hR]; simp only [V3.dot]; ring
+  · simp only [Det3.deriv1]; rw [M3.normSq_mulVec _ hR]; simp only [V3.normSq, V3.dot]
+    linear_combination (r * r * p.s1 * p.s1) * hc0 + (r * r) * hc1
+  · simp only [Det3.deriv0]; rw [M3.normSq_mulVec _ hR]; simp only [V3.normSq, V3.dot]
+    linear_combination (r * r * p.c1 * p.c1) * hc0
+  · rw [ec, hd, M3.normSq_mulVec _ hR]; simp only [V3.normSq, V3.dot]
+    linear_combination (r * r) * hc0
+  · rw [ec, hd]
+  · simp only [Det3.deriv1]; exact ea1.symm
+  · simp only [Det3.deriv0]; rw [hd]; ring
+  · simp only [Det3.deriv0]; rw [M3.normSq_mulVec _ hR]; simp only [V3.normSq, V3.dot]
+    linear_combination (r * r) * hc0
+  · simp only [Det3.normalRaw, Det3.deriv0, Det3.deriv1]
+    rw [cross_mulVec _ hR hdet, M3.normSq_mulVec _ hR]; simp only [V3.normSq, V3.dot, V3.cross]
+    linear_combination (r * r) * hc0
+
+example : ∃ (a0 a1 : V3 ℚ) (p : P2 ℚ), a0.normSq = 1 ∧ a1.normSq = 1 ∧ V3.dot a0 a1 = 0 ∧
+    p.c0 * p.c0 + p.s0 * p.s0 = 1 ∧ p.c1 * p.c1 + p.s1 * p.s1 = 1 ∧ p.s0 ≠ 0 ∧ p.s1 ≠ 0 :=
+  ⟨⟨2 / 7, 3 / 7, 6 / 7⟩, ⟨3 / 7, -6 / 7, 2 / 7⟩, ⟨1, 2, 3 / 5, 4 / 5, 5 / 13, 12 / 13⟩,
+    by norm_num [V3.normSq, V3.dot], by norm_num [V3.normSq, V3.dot], by norm_num [V3.dot],
+    by norm_num, by norm_num, by norm_num, by norm_num⟩
+
 /-- `CircularDetector`: its intrinsic rotation is a rotation for every unit axis, the curve
 passes through the origin at parameter 0 with tangent `radius·axis`, every point has
 distance `radius` from the circle centre `translation`, and the derivative has length
@@ -443,6 +524,88 @@ example : ∃ g : Cone ℚ, g.d.normSq = 1 ∧ g.pitch ≠ 0 ∧ g.rs ≠ 0 :=
   ⟨⟨⟨2 / 7, 3 / 7, 6 / 7⟩, ⟨3 / 7, -6 / 7, 2 / 7⟩, ⟨1, 2, 3⟩, 5, 4, 2, 1, 1, .flat ⟨1, 0, 0⟩ ⟨0, 0, 1⟩⟩,
     by norm_num [V3.normSq, V3.dot], by norm_num, by norm_num⟩
 
+/-- `FanBeamGeometry` WITH source and detector shift functions (arbitrary shift values
+`(shift_d, shift_t)` at the angle): the source has distance `√((src_radius + shift_d)² +
+shift_t²)` from `translation`, the detector reference point `√((det_radius + shift_d)² +
+shift_t²)` — the shifts act along the rotated `src_to_det_init` and orthogonally to it. -/
+theorem C19.fan_radii_shifted {K : Type} [CommRing K] (g : Fan K) (R : M2 K) (ssh dsh : V2 K)
+    (hR : R.transpose.mul R = M2.one) (hd : g.d.normSq = 1) :
+    (V2.sub (g.srcPos R ssh) g.t).normSq = (g.rs + ssh.x) * (g.rs + ssh.x) + ssh.y * ssh.y ∧
+    (V2.sub (g.refpoint R dsh) g.t).normSq = (g.rd + dsh.x) * (g.rd + dsh.x) + dsh.y * dsh.y := by
+  obtain ⟨⟨dx, dy⟩, t, rs, rd, det⟩ := g
+  simp only [V2.normSq, V2.dot] at hd
+  have e1 : V2.sub ((Fan.mk ⟨dx, dy⟩ t rs rd det).srcPos R ssh) t
+      = R.mulVec ⟨-(rs + ssh.x) * dx + ssh.y * dy, -(rs + ssh.x) * dy - ssh.y * dx⟩ := by
+    ext <;> simp only [Fan.srcPos, V2.add, V2.sub, V2.smul, V2.neg, M2.mulVec] <;> ring
+  have e2 : V2.sub ((Fan.mk ⟨dx, dy⟩ t rs rd det).refpoint R dsh) t
+      = R.mulVec ⟨(rd + dsh.x) * dx - dsh.y * dy, (rd + dsh.x) * dy + dsh.y * dx⟩ := by
+    ext <;> simp only [Fan.refpoint, V2.add, V2.sub, V2.smul, M2.mulVec] <;> ring
+  rw [e1, e2, M2.normSq_mulVec R hR, M2.normSq_mulVec R hR]
+  simp only [V2.normSq, V2.dot]
+  constructor
+  · linear_combination ((rs + ssh.x) * (rs + ssh.x) + ssh.y * ssh.y) * hd
+  · linear_combination ((rd + dsh.x) * (rd + dsh.x) + dsh.y * dsh.y) * hd
+
+/-- `ConeBeamGeometry` WITH shift functions `(shift_d, shift_t, shift_r)`, pitch and offset,
+for every geometry whose tangent is normalised (`kt = 1/‖d × axis‖`, which exists exactly for
+the geometries the constructor accepts, `cone_ctor_rejects`): source and detector reference
+point have the distances `√((radius + shift_d)² + shift_t²)` from the point of the rotation
+axis at height `offset + pitch·angle/2π + shift_r`. -/
+theorem C19.cone_radii_shifted {K : Type} [CommRing K] (g : Cone K) (R : M3 K) (turns : K) (ssh dsh : V3 K)
+    (hR : R.transpose.mul R = M3.one) (hd : g.d.normSq = 1)
+    (hk : g.kt * g.kt * (V3.cross g.d g.axis).normSq = 1) :
+    (V3.sub (g.srcPos R turns ssh)
+      (V3.add g.t (V3.smul (g.off + g.pitch * turns + ssh.z) g.axis))).normSq
+      = (g.rs + ssh.x) * (g.rs + ssh.x) + ssh.y * ssh.y ∧
+    (V3.sub (g.refpoint R turns dsh)
+      (V3.add g.t (V3.smul (g.off + g.pitch * turns + dsh.z) g.axis))).normSq
+      = (g.rd + dsh.x) * (g.rd + dsh.x) + dsh.y * dsh.y := by
+  obtain ⟨⟨ax, ay, az⟩, ⟨dx, dy, dz⟩, t, rs, rd, pitch, off, kt, det⟩ := g
+  simp only [V3.normSq, V3.dot, V3.cross] at hd hk
+  have e1 : V3.sub ((Cone.mk ⟨ax, ay, az⟩ ⟨dx, dy, dz⟩ t rs rd pitch off kt det).srcPos R turns ssh)
+      (V3.add t (V3.smul (off + pitch * turns + ssh.z) ⟨ax, ay, az⟩))
+      = R.mulVec (V3.add (V3.smul (-(rs + ssh.x)) ⟨dx, dy, dz⟩)
+          (V3.smul (ssh.y * kt) (V3.cross ⟨dx, dy, dz⟩ ⟨ax, ay, az⟩))) := by
+    ext <;> simp only [Cone.srcPos, V3.add, V3.sub, V3.smul, V3.neg, V3.cross, M3.mulVec] <;> ring
+  have e2 : V3.sub ((Cone.mk ⟨ax, ay, az⟩ ⟨dx, dy, dz⟩ t rs rd pitch off kt det).refpoint R turns dsh)
+      (V3.add t (V3.smul (off + pitch * turns + dsh.z) ⟨ax, ay, az⟩))
+      = R.mulVec (V3.add (V3.smul (rd + dsh.x) ⟨dx, dy, dz⟩)
+          (V3.smul (-(dsh.y * kt)) (V3.cross ⟨dx, dy, dz⟩ ⟨ax, ay, az⟩))) := by
+    ext <;> simp only [Cone.refpoint, V3.add, V3.sub, V3.smul, V3.neg, V3.cross, M3.mulVec] <;> ring
+  rw [e1, e2, M3.normSq_mulVec R hR, M3.normSq_mulVec R hR]
+  simp only [V3.normSq, V3.dot, V3.add, V3.smul, V3.cross]
+  constructor
+  · linear_combination ((rs + ssh.x) * (rs + ssh.x)) * hd + (ssh.y * ssh.y) * hk
+  · linear_combination ((rd + dsh.x) * (rd + dsh.x)) * hd + (dsh.y * dsh.y) * hk
+
+/-- `ConeBeamGeometry.__init__`'s degeneracy test as executed by the model
+(`‖d × axis‖² ≤ tol²·‖axis‖²`, `tol ≥ 0`): every `src_to_det_init` that is a multiple of the
+axis is rejected, and for every accepted pair the tangent `d × axis` is non-zero, so that it
+can be normalised (no 0/0 in `det_refpoint` / `src_position`). -/
+theorem C19.cone_ctor_rejects {K : Type} [Field K] [LinearOrder K] [IsStrictOrderedRing K] (tol2 : K)
+    (htol : 0 ≤ tol2) :
+    (∀ (k : K) (axis : V3 K), Cone.ctorRejects tol2 (V3.smul k axis) axis = true) ∧
+    (∀ d axis : V3 K, Cone.ctorRejects tol2 d axis = false →
+      (V3.cross d axis).normSq ≠ 0 ∧ 0 < (V3.cross d axis).normSq) := by
+  constructor
+  · intro k axis
+    have : (V3.cross (V3.smul k axis) axis).normSq = 0 := by
+      simp only [V3.cross, V3.smul, V3.normSq, V3.dot]; ring
+    simp only [Cone.ctorRejects, this, decide_eq_true_eq]
+    have : 0 ≤ axis.normSq := by simp only [V3.normSq, V3.dot]; nlinarith [mul_self_nonneg axis.x, mul_self_nonneg axis.y, mul_self_nonneg axis.z]
+    positivity
+  · intro d axis h
+    simp only [Cone.ctorRejects, decide_eq_false_iff_not, not_le] at h
+    have h2 : 0 ≤ axis.normSq := by simp only [V3.normSq, V3.dot]; nlinarith [mul_self_nonneg axis.x, mul_self_nonneg axis.y, mul_self_nonneg axis.z]
+    have : 0 < (V3.cross d axis).normSq := lt_of_le_of_lt (mul_nonneg htol h2) h
+    exact ⟨ne_of_gt this, this⟩
+
+example : ∃ g : Cone ℚ, g.d.normSq = 1 ∧ g.kt * g.kt * (V3.cross g.d g.axis).normSq = 1 ∧
+    Cone.ctorRejects (1 / 10 ^ 20 : ℚ) g.d g.axis = false :=
+  ⟨⟨⟨0, 0, 1⟩, ⟨3 / 5, 4 / 5, 0⟩, ⟨1, 2, 3⟩, 5, 4, 2, 1, 1, .flat ⟨1, 0, 0⟩ ⟨0, 0, 1⟩⟩,
+    by norm_num [V3.normSq, V3.dot], by norm_num [V3.normSq, V3.dot, V3.cross],
+    by simp only [Cone.ctorRejects, V3.cross, V3.normSq, V3.dot]; norm_num⟩
+
 /-! ## `frommatrix`: the geometry is the default one moved by `x ↦ Qx + b` -/
 
 /-- DEFINITIONAL (unfolds `par2FromMatrix` / `par3FromMatrix`; tie = correspondence).
@@ -521,6 +684,67 @@ example : ∃ Q : M3 ℚ, Q.transpose.mul Q = M3.one ∧ Q.det = 1 ∧ Q.a12 ≠
     (C19.rot_orthonormal_axis _ _ _ (by norm_num) (by norm_num [V3.normSq, V3.dot])).1,
     (C19.rot_orthonormal_axis _ _ _ (by norm_num) (by norm_num [V3.normSq, V3.dot])).2,
     by norm_num [axisRot]⟩
+
+/-- `frommatrix` transforms the detector axes by `Q`: for all three 3d detector types (flat,
+cylindrical, spherical), every rotation `Q`, radius and detector parameter, the surface of the
+detector with axes `Q·a0, Q·a1` is the image under `Q` of the surface of the detector with
+axes `a0, a1`. -/
+theorem C19.detector_frommatrix_covariant {K : Type} [CommRing K] (Q : M3 K) (hQ : Q.transpose.mul Q = M3.one)
+    (hd : Q.det = 1) (a0 a1 : V3 K) (r : K) (p : P2 K) :
+    (Det3.flat (Q.mulVec a0) (Q.mulVec a1)).surface p = Q.mulVec ((Det3.flat a0 a1).surface p) ∧
+    (Det3.cyl (Q.mulVec a0) (Q.mulVec a1) r).surface p = Q.mulVec ((Det3.cyl a0 a1 r).surface p) ∧
+    (Det3.sph (Q.mulVec a0) (Q.mulVec a1) r).surface p = Q.mulVec ((Det3.sph a0 a1 r).surface p) := by
+  have lin : ∀ (k : K) (u v : V3 K), V3.add (Q.mulVec u) (V3.smul k (Q.mulVec v))
+      = Q.mulVec (V3.add u (V3.smul k v)) := by
+    intro k u v; ext <;> simp only [V3.add, V3.smul, M3.mulVec] <;> ring
+  refine ⟨?_, ?_, ?_⟩
+  · ext <;> simp only [Det3.surface, V3.add, V3.smul, M3.mulVec] <;> ring
+  · simp only [Det3.surface, curvedRot_cov Q hQ hd, lin]
+  · simp only [Det3.surface, curvedRot_cov Q hQ hd, lin]
+/-- Rigid-motion consistency of `frommatrix` for detector points and rays: for every rotation
+`Q`, translation `b` and every pair of detectors whose surfaces are related by `Q` (all three
+detector types, by `detector_frommatrix_covariant`), `det_point_position` of the transformed
+`ConeBeamGeometry` (pitch, offset, shifts) and `Parallel3dAxisGeometry` is the image under
+`x ↦ Qx + b` of that of the untransformed geometry, and the un-normalised `det_to_src` is the
+image under `Q`. -/
+theorem C19.frommatrix_consistent_det_point {K : Type} [CommRing K] (Q : M3 K)
+    (hQ : Q.transpose.mul Q = M3.one) (hdet : Q.det = 1) (b axis p0 d ssh dsh : V3 K)
+    (c s rs rd pitch off kt turns : K) (det det' : Det3 K) (p : P2 K)
+    (hs : det'.surface p = Q.mulVec (det.surface p)) :
+    (Cone.mk (Q.mulVec axis) (Q.mulVec d) b rs rd pitch off kt det').detPoint
+        (axisRot (Q.mulVec axis) c s) turns dsh p =
+      V3.add (Q.mulVec ((Cone.mk axis d V3.zero rs rd pitch off kt det).detPoint
+        (axisRot axis c s) turns dsh p)) b ∧
+    (Cone.mk (Q.mulVec axis) (Q.mulVec d) b rs rd pitch off kt det').detToSrc
+        (axisRot (Q.mulVec axis) c s) turns ssh dsh p =
+      Q.mulVec ((Cone.mk axis d V3.zero rs rd pitch off kt det).detToSrc
+        (axisRot axis c s) turns ssh dsh p) ∧
+    (Par3.mk (V3.add (Q.mulVec p0) b) b det').detPoint (axisRot (Q.mulVec axis) c s) p =
+      V3.add (Q.mulVec ((Par3.mk p0 V3.zero det).detPoint (axisRot axis c s) p)) b := by
+  obtain ⟨hconj, hpar, _, _⟩ := C19.frommatrix_consistent Q hQ hdet b axis p0 d dsh c s rs rd pitch off kt turns det det'
+  obtain ⟨_, _, hsrc, _⟩ := C19.frommatrix_consistent Q hQ hdet b axis p0 d ssh c s rs rd pitch off kt turns det det'
+  obtain ⟨_, _, _, href⟩ := C19.frommatrix_consistent Q hQ hdet b axis p0 d dsh c s rs rd pitch off kt turns det det'
+  have key : ∀ x, (axisRot (Q.mulVec axis) c s).mulVec (Q.mulVec x) =
+      Q.mulVec ((axisRot axis c s).mulVec x) := by
+    intro x; rw [← M3.mul_mulVec, ← M3.mul_mulVec, hconj]
+  have hdp : (Cone.mk (Q.mulVec axis) (Q.mulVec d) b rs rd pitch off kt det').detPoint
+        (axisRot (Q.mulVec axis) c s) turns dsh p =
+      V3.add (Q.mulVec ((Cone.mk axis d V3.zero rs rd pitch off kt det).detPoint
+        (axisRot axis c s) turns dsh p)) b := by
+    simp only [Cone.detPoint, href, hs, key]
+    ext <;> simp only [V3.add, M3.mulVec] <;> ring
+  refine ⟨hdp, ?_, ?_⟩
+  · simp only [Cone.detToSrc, hdp, hsrc]
+    ext <;> simp only [V3.add, V3.sub, M3.mulVec] <;> ring
+  · simp only [Par3.detPoint, hpar, hs, key]
+    ext <;> simp only [V3.add, M3.mulVec] <;> ring
+
+example (p : P2 ℚ) : (Det3.cyl ((axisRot ⟨2 / 7, 3 / 7, 6 / 7⟩ (3 / 5) (4 / 5)).mulVec ⟨1, 0, 0⟩)
+    ((axisRot (⟨2 / 7, 3 / 7, 6 / 7⟩ : V3 ℚ) (3 / 5) (4 / 5)).mulVec ⟨0, 0, 1⟩) 5).surface p =
+    (axisRot ⟨2 / 7, 3 / 7, 6 / 7⟩ (3 / 5) (4 / 5)).mulVec ((Det3.cyl ⟨1, 0, 0⟩ ⟨0, 0, 1⟩ 5).surface p) :=
+  (C19.detector_frommatrix_covariant _
+    (C19.rot_orthonormal_axis _ _ _ (by norm_num) (by norm_num [V3.normSq, V3.dot])).1
+    (C19.rot_orthonormal_axis _ _ _ (by norm_num) (by norm_num [V3.normSq, V3.dot])).2 _ _ 5 p).2.1
 
 /-- The 2d analogue (`Parallel2dGeometry.frommatrix` with a rotation `Q = euler2 c' s'`,
 which commutes with the motion rotation). -/
